@@ -7,7 +7,13 @@ LEVEL = 'model_checking'
 RULE = ('Complete enumeration of a finite structure: every (reply code, '
         'fact) and every protocol constant, statically and behaviourally, '
         'against the transcribed table. A case is one fact; all are '
-        'non-trivial.')
+        'non-trivial.'
+        ' '
+        "Also: the caught INSTANCE carries the specification's name "
+        'and value and keeps its args, for ~170 constructor argument '
+        'shapes per class (broker tokens in both spellings with three '
+        'separators, hostile text, other types, instances of every '
+        'other reply-code class and of foreign exceptions).')
 BOUNDS = {'quick': {'facts': 'all'}, 'thorough': {'facts': 'all'}}
 ASSUMPTIONS = ['mc/spec_table.py REPLY_CODES/CONSTANTS transcribe the AMQP '
                '0-9-1 constants section']
